@@ -166,6 +166,38 @@ def direct_checks():
                                 train_entries=len(s.metrics_history['train_loss'])))
         except Exception as e:
             bad.append(dict(case='a callback calls fit() on the same solver', error=f'{type(e).__name__}: {e}'))
+        # (b'') a solver restored with an optimiser INSTANCE in the configuration starts its histories afresh - as two separate series:
+        # after further training the global epoch is the number of training epochs and the length of the training-loss history
+        import contextlib, io, os, tempfile
+        import dill
+        from neurodiffeq.solvers_utils import SolverConfig
+        from ..fixtures import c18_eqs as E_
+        path = tempfile.mktemp(prefix='verif-c15-')
+        dill.settings['byref'] = True
+        try:
+            torch.manual_seed(2)
+            nets0 = [FCNN(1, 1, hidden_units=(3,))]
+            s0 = Solver1D(E_.ode, [IVP(0., 1.)], t_min=0., t_max=1., nets=nets0, optimizer=torch.optim.SGD(nets0[0].parameters(), lr=0.01), n_batches_valid=1,
+                          train_generator=Generator1D(4, 0., 1.), valid_generator=Generator1D(4, 0., 1.))
+            s0.fit(2, tqdm_file=None)
+            s0.save(path=path)
+            mine = [FCNN(1, 1, hidden_units=(3,))]
+            cfg = SolverConfig()
+            cfg.nets, cfg.optimizer = mine, torch.optim.SGD(mine[0].parameters(), lr=0.01)
+            with contextlib.redirect_stdout(io.StringIO()):
+                l = Solver1D.load(path=path, config=cfg)
+            e0, n0, v0 = l.global_epoch, len(l.metrics_history['train_loss']), len(l.metrics_history['valid_loss'])
+            l.fit(3, tqdm_file=None)
+            grew_t, grew_v = len(l.metrics_history['train_loss']) - n0, len(l.metrics_history['valid_loss']) - v0
+            if grew_t != 3 or grew_v != 3 or l.global_epoch - e0 != 3 or l.metrics_history['train_loss'] is l.metrics_history['valid_loss']:
+                bad.append(dict(case='solver restored with an optimiser instance in the SolverConfig, then fit(3)', violated='the series do not grow by one entry per '
+                                'epoch each (or the epoch counter is off)', new_train_entries=grew_t, new_valid_entries=grew_v, epochs_counted=l.global_epoch - e0))
+        except Exception as e:
+            bad.append(dict(case='solver restored with an optimiser instance in the SolverConfig', error=f'{type(e).__name__}: {e}'))
+        finally:
+            dill.settings['byref'] = False
+            if os.path.exists(path):
+                os.remove(path)
         # (c) callbacks run once per epoch in the given order - also when a monitor is passed the deprecated way
         log = []
 
